@@ -61,19 +61,26 @@ Proof. exact (@immutableb_spec (nat * obs)). Qed.
 Print Assumptions immutableb_sound.
 
 (* non-vacuity: a 3-branch history over a 2-attribute mesh with spare capacity on the shared arrays (the base is the
-   result of two Appends); all three siblings and the base report after the last step what they reported when made *)
+   result of two Appends); all three siblings and the base report after the last step what they reported when made;
+   on the pinned Append the first sibling is changed by the derivation of the third *)
+Definition c01_example_ops : list op :=
+  [ONew Triangle [[0]; [1]; [2]]%Z 0; OSetAttr K3 0 2%N [[0;0;0]; [1;0;0]; [2;0;0]]%Z 0;
+   OSetAttr K2 1 3%N [[0;0]; [1;0]; [0;1]]%Z 0;         (* 2: t, Position + TexCoord *)
+   OAppend 2 2; OAppend 3 2;                              (* 4: base = (t+t)+t *)
+   OAppend 4 2; OAppend 4 1; OAppend 4 0;                 (* 5,6,7: three siblings *)
+   OMap K3 4 2%N 2%N [] false (FAdd [5;5;5]%Z); OUnweld 5; OExport 0 6].
+
 Example c01_example :
-  let t := [ONew Triangle [[0]; [1]; [2]]%Z 0; OSetAttr K3 0 2%N [[0;0;0]; [1;0;0]; [2;0;0]]%Z 0;
-            OSetAttr K2 1 3%N [[0;0]; [1;0]; [0;1]]%Z 0] in
-  let ops := t ++ [OAppend 2 2; OAppend 3 2;            (* 4: base = (t+t)+t *)
-                   OAppend 4 2; OAppend 4 1; OAppend 4 0;  (* 5,6,7: three siblings *)
-                   OMap K3 4 2%N 2%N [] false (FAdd [5;5;5]%Z); OUnweld 5; OExport 0 6] in
+  let ops := c01_example_ops in
   length (pool (run grow_double true ops 11)) = 10 /\
-  (forall k, In k [4; 5; 6; 7] ->
-     observe_member (run grow_double true ops 11) k = observe_member (run grow_double true ops (S k)) k) /\
+  observe_member (run grow_double true ops 11) 4 = observe_member (run grow_double true ops 5) 4 /\
+  observe_member (run grow_double true ops 11) 5 = observe_member (run grow_double true ops 6) 5 /\
+  observe_member (run grow_double true ops 11) 6 = observe_member (run grow_double true ops 7) 6 /\
+  observe_member (run grow_double true ops 11) 7 = observe_member (run grow_double true ops 8) 7 /\
   option_map (fun o => length (o_idx o)) (observe_member (run grow_double true ops 11) 5) = Some 12 /\
   observe_member (run grow_double false ops 8) 5 <> observe_member (run grow_double false ops 6) 5.
 Proof.
-  vm_compute. split; [reflexivity|]. split; [|split; [reflexivity|discriminate]].
-  intros k [<-|[<-|[<-|[<-|[]]]]]; reflexivity.
+  cbv zeta.
+  do 6 (split; [vm_compute; reflexivity|]).
+  vm_compute. discriminate.
 Qed.
